@@ -1403,6 +1403,60 @@ func ruleGroupNearest(rule string) RuleFn {
 				good, why = false, "the walk does not go from the requesting scope outward (storesToRoot in ascending order)"
 			}
 		}
+		// the nearest decorator is passed over only while it is running: from "this scope has a decorator" every path
+		// either calls it or takes the on-stack edge; a decorator that already ran ends the walk like one that runs now
+		// (its Call is a no-op), it is never skipped in favour of the next one out
+		if good {
+			found := an.BoolEdges(fn, func(v ssa.Value) bool {
+				ex, ok := v.(*ssa.Extract)
+				if !ok || ex.Index != 1 {
+					return false
+				}
+				k, ok := ex.Tuple.(*ssa.Call)
+				return ok && k.Call.IsInvoke() && k.Call.Method.Name() == "getGroupDecorator"
+			}, true)
+			onStackC, _ := digConst(c, "decoratorOnStack")
+			onStack := an.EdgesWhere(fn, func(ft an.Fact) bool {
+				// a predicate method of the decorator interface that returns state == decoratorOnStack is the same test
+				if k, isCall := ft.Cond.(*ssa.Call); isCall && k.Common().IsInvoke() {
+					if sop, ok := onStackPredicate(c, k.Common().Method.Name(), onStackC); ok {
+						return (sop == "==") != ft.Neg
+					}
+					return false
+				}
+				return strings.HasSuffix(ft.S, ".State() == "+onStackC+")") && !strings.HasPrefix(ft.S, "!")
+			})
+			var ci []ssa.Instruction
+			for _, k := range calls {
+				ci = append(ci, k)
+			}
+			if len(found) == 0 {
+				good, why = false, "no test of getGroupDecorator's found result"
+			}
+			for _, e := range found {
+				first := e.From.Succs[e.Succ].Instrs[0]
+				leaves := func(i ssa.Instruction) bool {
+					if _, ok := i.(*ssa.Return); ok {
+						return true
+					}
+					// the next round of the walk: another look-up
+					k, ok := i.(*ssa.Call)
+					return ok && k.Call.IsInvoke() && k.Call.Method.Name() == "getGroupDecorator"
+				}
+				isCall := false
+				for _, k := range ci {
+					if k == first {
+						isCall = true
+					}
+				}
+				if isCall {
+					continue
+				}
+				if hit, _ := an.PathTo(fn, first, leaves, an.NewGates().AddInstr(ci...).AddEdges(onStack...)); hit != nil {
+					good, why = false, "a decorator that is found and not running can be passed over without being called (only State() == decoratorOnStack may skip it): once the nearest decorator has run, later requests run the next one out - and the constructors it needs - although the nearest one's output is what is delivered"
+				}
+			}
+		}
 		c.Check(good, rule, "callGroupDecorators calls the nearest group decorator only", "range storesToRoot: first decorator not on the stack, Call, stop", why+": root Provide(feeder, group g), root Decorate(outer consuming g), child Decorate(inner replacing g), child Invoke(consumer of g) runs outer and feeder although the request does not need them, and fails if one of them fails - the same history with a single value does neither", calls[0], nil)
 	}
 }
